@@ -58,10 +58,17 @@ def make_file(rng, n, kind):
 
 
 def tle_lines(fields):
+    """Two lines per element set.  A set repeating the epoch of the set before it is either an exact copy of both lines
+    (archives assembled from overlapping downloads) or a RE-ISSUE: identical line 2, line 1 with a new element-set number."""
     out = []
+    l1id = l2id = 0
     for k, f in enumerate(fields):
-        out.append("1 %05dU 00000A   %s  .00000000  00000-0  00000+0 0  %4d\n" % (k % 100000, f, k % 10000))
-        out.append("2 %05d  98.7900 210.3675 0010476 274.6981  85.3501 14.10895524 %5d\n" % (k % 100000, k))
+        if k == 0 or f != fields[k - 1]:
+            l1id = l2id = k
+        elif k % 2:
+            l1id = k                      # re-issued: only line 1 changes
+        out.append("1 %05dU 00000A   %s  .00000000  00000-0  00000+0 0  %4d\n" % (l2id % 100000, f, l1id % 10000))
+        out.append("2 %05d  98.7900 210.3675 0010476 274.6981  85.3501 14.10895524 %5d\n" % (l2id % 100000, l2id))
     return out
 
 
@@ -82,6 +89,8 @@ def real_select(ctx, path_dir, fields, sdate_ms, thresh):
             return "notle", None
         except IndexError:
             return "indexerror", None
+        except Exception as e:      # noqa - neither a selection nor the documented "no TLE data": judged below
+            return "raises:%s" % type(e).__name__, None
         return "chosen", (l1, l2)
     kind, pair = query()
     # asking again (as the angle computation does after the clock-drift correction asked) must give the same answer
@@ -129,8 +138,11 @@ def check(ctx, fields, sdate_ms, thresh, drv, tag):
             if dmin < lim - 1:
                 ctx.violation("start %d: reported no TLE data although a set %.4f days away exists (limit %s)" % (
                     sdate_ms, float(dmin) / 86400000, thresh), payload, cls="fresh-rejected")
-        else:
+        elif kind == "indexerror":
             ctx.violation("IndexError on a non-empty TLE file", payload, cls="indexerror")
+        else:
+            ctx.violation("start %d, %d sets: the selection ended in %s instead of an element set or 'no TLE data'" % (
+                sdate_ms, len(fields), kind), payload, cls=kind)
         # epoch decoding clause (within 1 ms)
         dec = r.tle2datetime64(np.array([float(f) for f in fields])).astype("datetime64[ms]").astype(np.int64)
         bad = [i for i, (a, b) in enumerate(zip(dec.tolist(), ex)) if abs(a - b) > 1]
@@ -156,7 +168,7 @@ def run(ctx):
     drv = []
     nfiles = ctx.n(40, 400)
     for k in range(nfiles):
-        kind = rng.choice(["sparse", "dense", "dups", "dense"])
+        kind = rng.choice(["sparse", "dense", "dups", "dups", "dense"])
         n = rng.choice([1, 2, 3, 5, 20, 60] + ([200, 400] if (ctx.thorough or k % 10 == 0) else []))
         fields = make_file(rng, n, kind)
         ex = [exact_ms(f) for f in fields]
